@@ -314,6 +314,7 @@ def closed_form_checks(case, outs):
 class C05(Prop):
     pid = "C05"
     lean_module = "RxModel.Props.C05"
+    extra_modules = ("RxModel.Props.C05O",)
     design_ref = "DESIGN.md §6 C05, §7 finding 5, App. A.4"
     rule = ("suite flatten: outer = hot Subject of <= 4 inner observables, each cold (0-3 items, "
             "complete / error / no terminal; from_iter or create) or hot (a Subject); limits 1..5, inf, "
